@@ -683,20 +683,20 @@ fn queue_stress(budget: std::time::Duration) -> Result<u64, Fail> {
     // watchdog: every thread must keep making calls
     let t_end = std::time::Instant::now() + budget;
     let mut last: Vec<u64> = vec![0; 3];
-    let mut last_change = std::time::Instant::now();
+    let mut last_change: Vec<std::time::Instant> = vec![std::time::Instant::now(); 3];
     while std::time::Instant::now() < t_end {
         std::thread::sleep(std::time::Duration::from_millis(20));
         let now: Vec<u64> = progress.iter().map(|p| p.load(Ordering::SeqCst)).collect();
-        if now != last {
-            // all three must move; a single stuck thread shows as its own counter standing still
-            if (0..3).all(|i| now[i] != last[i]) {
-                last_change = std::time::Instant::now();
+        for i in 0..3 {
+            // each thread on its own: its call counter must move at least once in 10 s
+            if now[i] != last[i] {
+                last_change[i] = std::time::Instant::now();
             }
-            last = now;
         }
-        if last_change.elapsed() > std::time::Duration::from_secs(10) {
+        last = now;
+        if let Some(i) = (0..3).find(|i| last_change[*i].elapsed() > std::time::Duration::from_secs(10)) {
             stop.store(true, Ordering::SeqCst);
-            return Err(Fail::new("deadlock", format!("owner / thief / observer on one WorkStealingQueue: at least one thread completed no call for 10 s (calls so far {:?})", last)).with_class("stress"));
+            return Err(Fail::new("deadlock", format!("owner / thief / observer on one WorkStealingQueue: thread {i} completed no call for 10 s (calls so far {:?})", last)).with_class("stress"));
         }
     }
     stop.store(true, Ordering::SeqCst);
